@@ -89,6 +89,7 @@ func script(kind string, sys byte) *chanScript {
 		s.pieces = []piece{
 			signedOK(0, 5000000),
 			{sx.FrameOf(true, 1, sys, 1, hb(1), wrongKey, 9, 5000001), false},
+			{sx.FrameOf(true, 7, sys, 1, hb(1), wrongKey, 9, 5000000+360000000), false}, // forged, one hour ahead: must not move the window
 			{sx.FrameOf(true, 2, sys, 1, hb(2), nil, 0, 0), false},  // unsigned
 			{sx.FrameOf(false, 3, sys, 1, hb(3), nil, 0, 0), false}, // v1
 			signedOK(4, 5000002),
@@ -105,6 +106,12 @@ func script(kind string, sys byte) *chanScript {
 		s.endErr = io.ErrUnexpectedEOF
 	case "after":
 		s.pieces = []piece{good(7, hb(3))}
+	case "burst":
+		// more frames than any internal queue could hold (per-channel write queue is 64)
+		for i := 0; i < 90; i++ {
+			s.pieces = append(s.pieces, good(byte(i), &common.MessagePing{Seq: uint32(i)}))
+		}
+		s.endErr = io.EOF
 	}
 	return s
 }
@@ -171,6 +178,12 @@ func (e *exec) Body() {
 		ss := &sx.SerialScript{Conns: []*vnet.FakeConn{{Name: "probe"}, e.conns[0], e.conns[1]}}
 		ss.Install()
 		n.Endpoints = []gomavlib.EndpointConf{gomavlib.EndpointSerial{Device: "/dev/ttyFAKE", Baud: 57600}}
+	case "ev6":
+		// a burst of 90 frames arrives in one piece while the consumer is away for a second
+		e.scripts = []*chanScript{script("burst", 21)}
+		c := &vnet.FakeConn{Name: "A", In: [][]byte{e.scripts[0].bytes()}, InErr: io.EOF, InErrOnce: true}
+		e.conns = []*vnet.FakeConn{c}
+		n.Endpoints = []gomavlib.EndpointConf{gomavlib.EndpointCustom{ReadWriteCloser: c}}
 	case "ev5":
 		e.scripts = []*chanScript{script("short", 21), script("short", 22)}
 		e.scripts[0].endErr, e.scripts[1].endErr = nil, nil // stay open: only the node close ends them
@@ -185,6 +198,11 @@ func (e *exec) Body() {
 	}
 	consumerDone := false
 	vmc.GoApp("consumer", func() {
+		if p.Scen == "ev6" {
+			// slow / bursty consumer: away for one second, then drains everything
+			vmc.AddWake(vmc.Epoch.Add(time.Second), "consumer-pause")
+			vmc.Await("consumer pause", func() bool { return vmc.NowNS() >= int64(time.Second) })
+		}
 		e.log.Consume(n, -1, func(ev gomavlib.Event) {
 			var ch *gomavlib.Channel
 			var d string
@@ -404,11 +422,14 @@ func (e *exec) Outcome(r *vmc.Result) string { return fmt.Sprint(r.End, e.log.Ev
 
 func variants(thorough bool) []sx.Variant {
 	var out []sx.Variant
-	for _, s := range []string{"ev1", "ev2", "ev3", "ev4", "ev5"} {
+	for _, s := range []string{"ev1", "ev2", "ev3", "ev4", "ev5", "ev6"} {
 		p := params{Scen: s}
 		bound := 2
 		if thorough {
 			bound = 3
+		}
+		if s == "ev6" {
+			bound-- // long executions (90 frames)
 		}
 		out = append(out, sx.Variant{
 			Name: s, Class: "events", MaxSteps: 20000, MaxTime: 10 * time.Minute, Bound: bound, Shards: 8,
